@@ -418,3 +418,68 @@ Definition accept_close (bound t0 t1 : Z) (first stall tcp : bool) (obs : cls) :
   end.
 
 Definition predict_close (stall tcp : bool) : cls := if stall && tcp then BLOCKED else OK.
+
+(* --- the multiplexer's underlay table (mux.go: m.underlays, cleanUnderlay, Close) -------------------------------
+   An underlay record: done = its done channel is closed (underlay Close ran: event loop, socket and session loops
+   end - C15_underlay_close_releases / _event_loop); listed = it is in m.underlays; sessions / idle = what
+   cleanUnderlay asks (SessionCount() == 0, Scheduler().Idle()).  Mux.Close closes exactly the listed underlays. *)
+Close Scope Z_scope.
+
+Record urec := mkU { u_done : bool; u_listed : bool; u_sessions : nat; u_idle : bool }.
+
+(* cleanUnderlay on one entry of the table: an underlay that is done is dropped; one that has no session and whose
+   scheduler is idle is closed (and dropped); every other one is KEPT.  keep / close are the only outcomes. *)
+Definition clean_one (u : urec) : urec :=
+  if negb (u_listed u) then u
+  else if u_done u then mkU true false (u_sessions u) (u_idle u)
+  else if (u_sessions u =? 0)%nat && u_idle u then mkU true false (u_sessions u) (u_idle u)
+  else u.
+
+(* the variant "ask the scheduler first" with the else branch attached to the outer test: an idle underlay that still
+   has sessions is neither closed nor kept *)
+Definition clean_one_dropping (u : urec) : urec :=
+  if negb (u_listed u) then u
+  else if u_done u then mkU true false (u_sessions u) (u_idle u)
+  else if u_idle u then
+    (if (u_sessions u =? 0)%nat then mkU true false (u_sessions u) (u_idle u) else mkU false false (u_sessions u) (u_idle u))
+  else u.
+
+Definition mux_close_one (u : urec) : urec :=
+  if u_listed u then mkU true false (u_sessions u) (u_idle u) else u.
+
+Inductive mux_op :=
+| MNew                                   (* newUnderlay / accept: running, listed *)
+| MClean                                 (* housekeeping tick, DialContext, accept *)
+| MEnv (i : nat) (sessions : nat) (idle : bool)   (* sessions come and go, the scheduler gets disabled / idle *)
+| MSelfClose (i : nat)                   (* the event loop of underlay i ended: underlay.Close() *)
+| MClose.                                (* Mux.Close *)
+
+Fixpoint upd (l : list urec) (i : nat) (f : urec -> urec) : list urec :=
+  match l, i with
+  | [], _ => []
+  | u :: l', O => f u :: l'
+  | u :: l', S i' => u :: upd l' i' f
+  end.
+
+Definition mux_step (clean : urec -> urec) (l : list urec) (o : mux_op) : list urec :=
+  match o with
+  | MNew => l ++ [mkU false true 0 false]
+  | MClean => map clean l
+  | MEnv i n b => upd l i (fun u => mkU (u_done u) (u_listed u) n b)
+  | MSelfClose i => upd l i (fun u => mkU true (u_listed u) (u_sessions u) (u_idle u))
+  | MClose => map mux_close_one l
+  end.
+
+Definition mux_run (clean : urec -> urec) (l : list urec) (ops : list mux_op) : list urec := fold_left (mux_step clean) ops l.
+
+(* every underlay whose loops run is in the table *)
+Definition tracked (u : urec) : bool := u_done u || u_listed u.
+
+(* --- which session states send a close request when the session is closed (closeWithError) ---------------------
+   ATTACHED = attached to an underlay (a client may already have sent its open request: the peer may hold the
+   session; a client session over TCP only becomes ESTABLISHED when the application reads the open response). *)
+Inductive sstate := SInit | SAttached | SEstablished | SClosed.
+Definition code_sends_close_request (st : sstate) : bool := match st with SAttached | SEstablished => true | _ => false end.
+Definition established_only_sends_close_request (st : sstate) : bool := match st with SEstablished => true | _ => false end.
+(* the peer can hold a session only after this end was attached (open request sent / session created by the request) *)
+Definition peer_may_hold (st : sstate) : bool := match st with SAttached | SEstablished => true | _ => false end.
